@@ -1,7 +1,7 @@
 (* C19 — what is computed inside the critical sections of the operations used by the atomicity tie
    (kh_arc): impl-shaped resumptions over an abstract list / insertion-ordered map of integers.
    Rust panics are explicit outcomes (RPanic): Vec::insert / Vec::remove / slice indexing assert
-   their index against the length seen INSIDE the second section; Option::unwrap in do_map_update.
+   their index against the length seen INSIDE the second section.
    DEFINITIONS ONLY. *)
 From Coq Require Import List NArith ZArith Bool.
 From KV.locks Require Import Locks.
@@ -148,19 +148,14 @@ Definition prog_of (l : loc) (o : opd) : P :=
                                                   | Some (k, v) => RPair k v
                                                   | None => RNull
                                                   end)
-  (* map.update k, 0, |x| x + d  (do_map_update): contains_key? / insert default / get.unwrap() /
-     call f without a guard / insert *)
+  (* map.update k, 0, |x| x + d  (do_map_update): get / [insert default] / call f without a guard /
+     insert the new value *)
   | MUpdate k d =>
-      let rest : P :=
-        Sect l Sh keep (fun s2 =>
-          match m_get (kvs_of s2) k with
-          | None => Ret RPanic
-          | Some x => sect1 l Ex (onm (fun m => m_insert m k (x + d))) (fun _ => RInt (x + d))
-          end) in
+      let fin (x : Z) : P := sect1 l Ex (onm (fun m => m_insert m k (x + d))) (fun _ => RInt (x + d)) in
       Sect l Sh keep (fun s =>
         match m_get (kvs_of s) k with
-        | Some _ => rest
-        | None => Sect l Ex (onm (fun m => m_insert m k 0)) (fun _ => rest)
+        | Some x => fin x
+        | None => Sect l Ex (onm (fun m => m_insert m k 0)) (fun _ => fin 0)
         end)
   (* list.extend, generic-iterable arm, iterator takes no guard: `let mut list_data = l.data_mut()`
      around reserve and every push *)
